@@ -42,6 +42,7 @@ from __future__ import annotations
 
 import base64
 import os
+import secrets
 import struct
 import threading
 import time
@@ -518,6 +519,60 @@ _StateInfo = type[StreamState] | tuple[type[StreamState], ...]
 # We use 0x00 as a discriminator byte for union-tagged state envelopes.
 _UNION_STATE_MARKER = b"\x00"
 
+# A cursor minted by ``/{method}/init`` (or a later turn of that stream) is only
+# good at ``/{method}/exchange``.  The method name rides inside the sealed
+# payload, ahead of the state bytes, behind a marker byte that none of the state
+# encodings use (0xFF Arrow IPC, 0x01 compact, 0x00 union tag).
+_METHOD_BOUND_MARKER = b"\x02"
+
+
+def _bind_method(state_bytes: bytes, method: str) -> bytes:
+    """Prefix cursor state bytes with the name of the method that minted them.
+
+    Args:
+        state_bytes: Serialized cursor state (any of the supported encodings).
+        method: Name of the stream method whose init produced the state.
+
+    Returns:
+        ``0x02 || uint16-LE len(method) || method (UTF-8) || state_bytes``.
+
+    """
+    name = method.encode()
+    return _METHOD_BOUND_MARKER + struct.pack("<H", len(name)) + name + state_bytes
+
+
+def _unbind_method(data: bytes, method: str) -> bytes:
+    """Check that a cursor payload was minted by ``method`` and strip the binding.
+
+    The URL, not the token, selects the state class a cursor is deserialized
+    into, so without this check a cursor minted by one stream method would be
+    processed by any other method whose state class can read the same bytes.
+
+    Args:
+        data: Decrypted cursor payload as returned by :func:`_open_cursor_token`.
+        method: Name of the method whose ``/exchange`` endpoint received it.
+
+    Returns:
+        The state bytes that follow the binding.
+
+    Raises:
+        _RpcHttpError: If the payload carries no binding or names another
+            method (HTTP 400, same wording as any other cursor the endpoint
+            cannot authenticate).
+
+    """
+    name_end = 3 + (struct.unpack_from("<H", data, 1)[0] if len(data) >= 3 else 0)
+    if (
+        data[:1] != _METHOD_BOUND_MARKER
+        or len(data) < name_end
+        or not secrets.compare_digest(data[3:name_end], method.encode())
+    ):
+        raise _RpcHttpError(
+            RuntimeError("State token signature verification failed"),
+            status_code=HTTPStatus.BAD_REQUEST,
+        )
+    return data[name_end:]
+
 
 def _seal_cursor_token(
     state_bytes: bytes,
@@ -620,6 +675,7 @@ def _mint_cursor_token(
     auth: AuthContext | None,
     *,
     now: int | None = None,
+    method: str | None = None,
 ) -> tuple[bytes, bytes]:
     """Serialize the cursor state and seal it into a continuation token.
 
@@ -635,6 +691,9 @@ def _mint_cursor_token(
         token_key: Master AEAD key from the server config.
         auth: Authenticated identity for AAD binding.
         now: Override for the baked-in timestamp; default ``time.time()``.
+        method: Name of the stream method the cursor belongs to.  When given,
+            the sealed payload is bound to it (see :func:`_bind_method`) and
+            only that method's ``/exchange`` endpoint accepts the token.
 
     Returns:
         ``(token, state_bytes)`` — the sealed token for the
@@ -644,7 +703,7 @@ def _mint_cursor_token(
     """
     state_bytes = _serialize_state_bytes(state, state_info)
     token = _seal_cursor_token(
-        state_bytes,
+        state_bytes if method is None else _bind_method(state_bytes, method),
         call_id,
         token_key,
         _compute_aad(auth),
